@@ -2,7 +2,7 @@
 SPECIFICATION Spec
 CONSTANTS
   Variant = "round"
-  Families = {"A", "B", "Cfull", "D", "E"}
+  Families = {"A", "B", "Cfull", "D", "E", "F", "G"}
 INVARIANT ModeOK
 INVARIANT LexerShape
 INVARIANT Requirement
